@@ -9,6 +9,7 @@
 //                                     (CFGBAD when simd/shift differ from this build's Platform::SIMD)
 //   cfg                               output: <simd>:<shift>
 #include "common.hpp"
+#include "seq_fork.hpp"
 #include "Memory.hpp"
 
 using namespace Qentem;
@@ -44,8 +45,8 @@ static std::string grid(bool copy, unsigned lo, unsigned hi) {
                 std::free(db);
                 if (!ok) { std::free(sb); return std::string("BAD:") + (copy ? "copy:" : "zero:") + std::to_string(n) + ":" + std::to_string(sa) + ":" + std::to_string(da); }
                 ++combos;
-                if (!copy && sa == 0) continue;
             }
+            std::free(sb);
             if (!copy) break; // SetToZero has no source
         }
     }
@@ -53,7 +54,7 @@ static std::string grid(bool copy, unsigned lo, unsigned hi) {
 }
 
 int main() {
-    vf::for_each_line([](const std::string &line) -> std::string {
+    vf::for_each_line_forked([](const std::string &line) -> std::string {
         auto tk = vf::split_ws(line);
         if (tk.empty()) return "BADCASE";
         const bool     simd  = Config::IsSIMDEnabled;
